@@ -59,7 +59,7 @@ Print Assumptions c03_off_is_raw.
    super-variable phrase incl. {n} substitution, echoed source, strings reached
    through a pointer-to-value) emits Safe text *)
 Theorem c03_every_var_path_safe : forall w kind s,
-  In kind [0; 1; 3; 4; 5; 7; 8] -> Safe (c03_emit_cfg true w kind s).
+  In kind [0; 1; 3; 4; 5; 7; 8; 10] -> Safe (c03_emit_cfg true w kind s).
 Proof. exact emit_var_positions_safe. Qed.
 Print Assumptions c03_every_var_path_safe.
 
